@@ -1,6 +1,24 @@
 /-
-  DDS.Proofs.GenF64LE — the regenerated `DecodeFloat64LE` (encoding.go:128) against the model's
-  `Codec.decF64LE`, and the theorems of `GenSketch7` that took this as a hypothesis, now without it.
+  DDS.Proofs.GenF64LE — the regenerated `DecodeFloat64LE` (encoding.go:128, `DDS/Generated/CodeEncoding.lean`)
+  against the model's `Codec.decF64LE`, and what `GenSketch7` had left conditional on it.
+
+  1. `f64LESpec : GenSketch7.F64LESpec` — the statement is TRUE AS WRITTEN, for every fuel: the regenerated
+     function has no loop, its fuel argument is unused, it never gives `.panic` / `.nofuel`.
+     Core: `leU64_spec` (`GoSem.leU64` on ≥ 8 bytes = `Codec.leValue` of the first eight `toNat`s), from
+     `or_byte` (or-ing a shifted byte above an accumulator is an addition; `C18Bits.acc_or_bits`).
+  2. `xfb_spec'`, `XDecodeAndMergeWith_rel_gen'`, `XDecodeAndMergeWith_rel'`, `DecodeExact_relO'`: the
+     theorems of `GenSketch7` that took `F64LESpec` as a hypothesis, without it (same statements otherwise;
+     fuel bound `len b + 9 ≤ fuel`).
+  3a. round trip of the regenerated pair (C18): `decode_encode_bits` (every float, every fuel on both sides:
+     the decoder returns `F64.ofBits v.toBits`, the following bytes, nil), `decode_encode` /
+     `decode_encode_rep` (the value itself when `F64.ofBits v.toBits = v`: every representable finite value).
+     The model's float type has ONE NaN and ONE zero, so the value `v` itself is only recovered up to that.
+  3b. `decodeLoop_noMS`: the model's `Sketch.decodeLoop` never refuses with `.missingStats` (any fuel, sketch,
+     auxiliary state, input) — so does `decodeStore`, `decItems`, `fallback`.
+  3c. `XDecRel1` = `XDecRel` with ONE Go error per refusal (`decErrX e`) instead of the disjunction;
+     `XDecodeAndMergeWith_rel1_gen`, `XDecodeAndMergeWith_rel1`, `DecodeExact_rel1O`; `XDecRel1_imp` gives back
+     `XDecRel`.
+  No disagreement found between generated code and model.
 -/
 import DDS.Proofs.GenSketch7
 import DDS.Proofs.GenMapId
@@ -314,5 +332,123 @@ theorem decodeLoop_noMS : ∀ (n : Nat) (s : Sketch) (aux : Sketch.DecAux) (bs :
           split
           · rename_i e he; exact NoMS_err _ (fallback_noMS _ _ _ _ he)
           · exact ih _ _ _
+
+/-! ## 3c. the exact variant's decoder with ONE error value per refusal -/
+
+section Collapse
+variable {M : Type} [MapI M] [Inhabited M]
+
+/-- `XDecRel` without the disjunction: the refusal `e` of the model is exactly the Go error `decErrX e` -/
+def XDecRel1 (idOf : M → Option MapId) :
+    Option (Except SkErr XSketch) → Res (DDSketchWithExactSummaryStatistics M Store × GoErr) → Prop
+  | none, _ => True
+  | some (.error e), r => ∃ g', r = .ok (g', decErrX e)
+  | some (.ok x'), r => ∃ g', r = .ok (g', GoErr.nil) ∧ ofGenXI idOf g' = x'
+
+theorem XDecRel1_imp (idOf : M → Option MapId) (o : Option (Except SkErr XSketch))
+    (r : Res (DDSketchWithExactSummaryStatistics M Store × GoErr)) (h : XDecRel1 idOf o r) :
+    XDecRel idOf o r := by
+  match o, h with
+  | none, _ => trivial
+  | some (.error e), ⟨g', hg⟩ => exact ⟨g', Or.inl hg⟩
+  | some (.ok x'), h => exact h
+
+/-- **`XDecodeAndMergeWith_rel1_gen`** (fuel `≥ len b + 9`, no hypothesis on the codec): the regenerated
+    `DDSketchWithExactSummaryStatistics.DecodeAndMergeWith` against `XSketch.decodeAndMergeWith`, every
+    refusal `e` of the model being the Go error `decErrX e` -/
+theorem XDecodeAndMergeWith_rel1_gen {idOf : M → Option MapId} (law : MapLaw idOf)
+    (fuel : Nat) (g : DDSketchWithExactSummaryStatistics M Store) (b : List (BitVec 8))
+    (hf : b.length + 9 ≤ fuel) :
+    XDecRel1 idOf ((ofGenXI idOf g).decodeAndMergeWith (nb b))
+      (Gen.SketchIter.DDSketchWithExactSummaryStatistics.DecodeAndMergeWith fuel g b) := by
+  have h := decodeAndMergeWithS_rel law (XR (M := M)) (xfb fuel) (xfb_spec' fuel (by omega)) fuel
+    g.DDSketch b { stats := some (GenStat.toModel g.summaryStatistics) } g rfl hf
+  rw [XDecode_unfold]
+  unfold XSketch.decodeAndMergeWith
+  show XDecRel1 idOf (match Sketch.decodeLoop ((nb b).length + 1) (ofGenI idOf g.DDSketch)
+      { stats := some (GenStat.toModel g.summaryStatistics) } (nb b) with
+    | none => none
+    | some (.error e) => some (.error e)
+    | some (.ok (sk, aux)) =>
+      if sk.mapping.isNone then some (.error .missingMapping)
+      else
+        let st := aux.stats.getD (GenStat.toModel g.summaryStatistics)
+        if F64.eq st.count (.fin 0) && !sk.isEmpty then some (.error .missingStats)
+        else some (.ok { sk := sk, st := st })) _
+  cases hm : Sketch.decodeLoop ((nb b).length + 1) (ofGenI idOf g.DDSketch)
+      { stats := some (GenStat.toModel g.summaryStatistics) } (nb b) with
+  | none => trivial
+  | some r =>
+    rw [hm] at h
+    cases r with
+    | error e =>
+      obtain ⟨st', g', hg⟩ := h
+      rw [hg]
+      simp only [Res.bind_ok, decErr_ne_nil, if_true]
+      have hne : e ≠ .missingStats := decodeLoop_noMS _ _ _ _ e hm
+      exact ⟨_, by rw [decErrX_eq e hne]⟩
+    | ok r =>
+      obtain ⟨s', aux'⟩ := r
+      obtain ⟨st', g', hs, hR', hg⟩ := h
+      rw [hg]
+      unfold XR at hR'
+      simp only [Res.bind_ok]
+      cases hi : s'.mapping.isNone with
+      | true =>
+        simp only [if_true, decErr_ne_nil]
+        exact ⟨_, rfl⟩
+      | false =>
+        simp only [Bool.false_eq_true, if_false, nil_bne_nil, hR', Option.getD_some]
+        have hemp : DDSketch.IsEmpty g' = s'.isEmpty := by rw [← hs]; rfl
+        rw [hemp]
+        by_cases hc : (F64.eq (GenStat.toModel st'.summaryStatistics).count (.fin 0) && !s'.isEmpty) = true
+        · rw [if_pos hc]
+          have hc2 : (F64.eq (Gen.Stat.SummaryStatistics.Count st'.summaryStatistics) (.fin 0)
+              && !s'.isEmpty) = true := hc
+          simp only [hc2, if_true]
+          exact ⟨_, rfl⟩
+        · rw [if_neg hc]
+          have hc2 : (F64.eq (Gen.Stat.SummaryStatistics.Count st'.summaryStatistics) (.fin 0)
+              && !s'.isEmpty) = false := by
+            have : (F64.eq (GenStat.toModel st'.summaryStatistics).count (.fin 0) && !s'.isEmpty) = false := by
+              simpa using hc
+            exact this
+          simp only [hc2, Bool.false_eq_true, if_false]
+          refine ⟨_, rfl, ?_⟩
+          unfold ofGenXI
+          simp only [hs]
+
+/-- on `toGenX env x` (`x.sk.mapping = some env.id`) -/
+theorem XDecodeAndMergeWith_rel1 (env : MapEnv) (x : XSketch)
+    (hm : x.sk.mapping = some env.id) (fuel : Nat) (b : List (BitVec 8)) (hf : b.length + 9 ≤ fuel) :
+    XDecRel1 (fun e : MapEnv => some e.id) (x.decodeAndMergeWith (nb b))
+      (Gen.SketchIter.DDSketchWithExactSummaryStatistics.DecodeAndMergeWith fuel (toGenX env x) b) := by
+  have h := XDecodeAndMergeWith_rel1_gen mapEnv_law fuel (toGenX env x) b hf
+  have e : ofGenXI (fun e : MapEnv => some e.id) (toGenX env x) = x := by
+    unfold ofGenXI
+    rw [toGenX_sk, toGenX_st, ofGenI_mapEnv, ofGen_toGen env x.sk hm, GenStat.toModel_ofModel]
+  rw [e] at h
+  exact h
+
+/-- `DecodeDDSketchWithExactSummaryStatistics` (ddsketch.go:755), possibly nil mapping argument -/
+theorem DecodeExact_rel1O (fuel : Nat) (b : List (BitVec 8)) (k : StoreKind)
+    (m : Option MapEnv) (hf : b.length + 9 ≤ fuel) :
+    XDecRel1 (fun o : Option MapEnv => o.map (fun e => e.id))
+      ((XSketch.new (m.map (fun e => e.id)) k).decodeAndMergeWith (nb b))
+      (Gen.SketchIter.DecodeDDSketchWithExactSummaryStatistics fuel b (provider k) m) := by
+  rw [DecodeExact_eqO]
+  have h := XDecodeAndMergeWith_rel1_gen optMapEnv_law fuel
+    { DDSketch := toGenO m (Sketch.new (m.map (fun e => e.id)) k),
+      summaryStatistics := Gen.Stat.NewSummaryStatistics } b hf
+  have e : ofGenXI (fun o : Option MapEnv => o.map (fun e => e.id))
+      { DDSketch := toGenO m (Sketch.new (m.map (fun e => e.id)) k),
+        summaryStatistics := Gen.Stat.NewSummaryStatistics } = XSketch.new (m.map (fun e => e.id)) k := by
+    unfold ofGenXI XSketch.new
+    simp only [GenStat.new_eq]
+    congr 1
+  rw [e] at h
+  exact h
+
+end Collapse
 
 end DDS.GenF64LE
